@@ -18,6 +18,7 @@ structure In where
   hsDur : Option Nat        -- the handshake I/O, undisturbed, finishes after this long
   hsFail : Bool := false    -- … with a non-timeout error (bad response, EOF)
   pickCtx : Bool := false   -- the watcher's select picks ctx.Done() when both cases are ready
+  dialIgnores : Bool := false  -- the user's NetDial ignores its context: it returns the conn after dialDur whatever happened
   deriving DecidableEq, Repr
 
 inductive Err where
@@ -57,10 +58,10 @@ def limitErr (i : In) : Err :=
 def dial (i : In) : Out :=
   -- dialctx: ctx, or ctx with the Timeout deadline when that is earlier
   let limit := minO i.ctxEnd i.timeout
-  -- dial phase: NetDial honours dialctx
+  -- dial phase: NetDial honours dialctx (or, a user's NetDial that does not, hands over a conn late)
   let connectedAt : Option Nat :=
     match i.dialDur, limit with
-    | some d, some l => if d < l then some d else none
+    | some d, some l => if d < l || i.dialIgnores then some d else none
     | some d, none => some d
     | none, _ => none
   match connectedAt with
@@ -79,17 +80,17 @@ def dial (i : In) : Out :=
         match finish with
         | some f =>
           if f ≤ t then { connected := true, err := if i.hsFail then .io else .nil, closed := i.hsFail, dl := .cleared, ret := some f }
-          else { connected := true, err := .netTimeout, closed := true, dl := .cleared, ret := some t }
-        | none => { connected := true, err := .netTimeout, closed := true, dl := .cleared, ret := some t }
+          else { connected := true, err := .netTimeout, closed := true, dl := .cleared, ret := some (max t t0) }
+        | none => { connected := true, err := .netTimeout, closed := true, dl := .cleared, ret := some (max t t0) }
     else
       -- done := setupContextDeadliner(dialctx, conn): the watcher poisons the conn at `limit`
       match limit, finish with
       | none, none => { connected := true, err := .nil, closed := false, dl := .untouched, ret := none }
       | none, some f => { connected := true, err := if i.hsFail then .io else .nil, closed := i.hsFail, dl := .untouched, ret := some f }
-      | some l, none => { connected := true, err := limitErr i, closed := true, dl := .poisoned, ret := some l }
+      | some l, none => { connected := true, err := limitErr i, closed := true, dl := .poisoned, ret := some (max l t0) }
       | some l, some f =>
         if f < l then { connected := true, err := if i.hsFail then .io else .nil, closed := i.hsFail, dl := .untouched, ret := some f }
-        else if l < f then { connected := true, err := limitErr i, closed := true, dl := .poisoned, ret := some l }
+        else if l < f then { connected := true, err := limitErr i, closed := true, dl := .poisoned, ret := some (max l t0) }
         else
           -- the handshake finishes at the very instant the context ends: the watcher's choice
           if i.pickCtx then
